@@ -1,5 +1,6 @@
 import RockitModel.Props.C04
 import RockitModel.Props.C02
+import RockitModel.Generated.Clone
 /-!
 # C14 — scaling arguments never change the meaning of the problem
 -/
@@ -52,5 +53,13 @@ theorem states_same (c : Ctx K) (sx sd sz : Array K) (k : Nat) : (withScales c s
 theorem user_rows_same (c : Ctx K) (sx sd sz : Array K) : (withScales c sx sd sz).userRows = c.userRows := rfl
 
 example : solverOf (6:ℚ) 4 = 3/2 := by norm_num [solverOf]
+
+
+/-! ### scales are per stage -/
+/-- `Stage.clone` as it is now (table regenerated from the source on every run) gives every instance of a template its OWN table of
+derivative scales: an instance that re-declares a derivative with another scale does not change its siblings' rows -/
+theorem scale_table_is_per_stage :
+    (Rockit.Generated.cloneTable.filter (fun e => e.1 == "_scale_der")).all (fun e => e.2.1 == .copy || e.2.1 == .deepcopy) = true ∧
+    (Rockit.Generated.cloneTable.filter (fun e => e.1 == "_scale_der")).length = 1 := by decide
 
 end Rockit.C14
